@@ -43,6 +43,7 @@ type c11World struct {
 	pacing        sim.Pacing
 	incoming      int
 	useClosed     bool
+	relayedFrames int // received frames that were kept and forwarded at the end (set by the run)
 	overflowFirst int // -1, or the channel that goes through a queue overflow (and recovers) before the program starts
 }
 
@@ -60,10 +61,23 @@ func (w *c11World) describe() string {
 }
 
 // fwdFrame builds the frame a producer forwards: it keeps its own header fields.
+// incomingFrame is the k-th frame arriving from outside: alternately a message the dialect does not know (it stays
+// raw inside the node) and a DEBUG message (decoded, re-encoded when forwarded).
+func incomingFrame(w *c11World, k int) []byte {
+	kind := "raw"
+	if k%2 == 1 {
+		kind = "debug"
+	}
+	return tagged(byte(k%w.nch+1), k, kind, w.v2, nil, 0).Bytes()
+}
+
 func fwdFrame(p, i int, v2, raw bool) (frame.Frame, ref.Frame) {
 	l := lay(debugMsgID)
 	val := &common.MessageDebug{TimeBootMs: uint32(i), Ind: byte(p), Value: 2.5}
 	f := ref.Frame{V2: v2, Seq: byte(i*7 + 3), Sys: byte(200 + p), Comp: 77, ID: debugMsgID}
+	if v2 {
+		f.Compat = []byte{0, 0, 1, 2, 0x80, 0xFF}[(p*5+i)%6] // the original sender's compatibility flags travel with the frame
+	}
 	f.Payload = l.Encode(val, v2)
 	f.Checksum = f.ChecksumFor(l.CRCExtra)
 	var m message.Message = val
@@ -71,14 +85,14 @@ func fwdFrame(p, i int, v2, raw bool) (frame.Frame, ref.Frame) {
 		m = &message.MessageRaw{ID: debugMsgID, Payload: append([]byte(nil), f.Payload...)}
 	}
 	if v2 {
-		return &frame.V2Frame{SequenceNumber: f.Seq, SystemID: f.Sys, ComponentID: f.Comp, Message: m, Checksum: f.Checksum}, f
+		return &frame.V2Frame{CompatibilityFlag: f.Compat, SequenceNumber: f.Seq, SystemID: f.Sys, ComponentID: f.Comp, Message: m, Checksum: f.Checksum}, f
 	}
 	return &frame.V1Frame{SequenceNumber: f.Seq, SystemID: f.Sys, ComponentID: f.Comp, Message: m, Checksum: f.Checksum}, f
 }
 
 func TestC11FanOut(t *testing.T) {
-	rec := evid.New(t, "C11", "2..5 channels on custom transports, 1..4 producer goroutines each running a generated program of WriteMessage/WriteFrame x All/To/Except with items tagged (producer, counter), targets including a closed channel, a channel of another node and nil; flow control keeps every channel's backlog below the 64-item queue; incoming traffic and a paced consumer run concurrently; per channel every transport write must be exactly one whole frame, each addressed item appears exactly once, nothing else appears, per (producer, channel) order is submission order, forwarded frames keep their header, originated messages carry the node's ids and the link's own gapless sequence; non-trivial = >=2 producers on >=3 channels with at least one Except and one To; distinct by hash of the programs")
-	rec.Require("2+producers-3+channels-to-except", "closed-target", "foreign-target", "v1", "v2", "signed", "after-overflow-and-recovery", "unencodable-item-between-valid-ones")
+	rec := evid.New(t, "C11", "2..5 channels on custom transports, 1..4 producer goroutines each running a generated program of WriteMessage/WriteFrame x All/To/Except with items tagged (producer, counter), targets including a closed channel, a channel of another node and nil; flow control keeps every channel's backlog below the 64-item queue; incoming traffic and a paced consumer run concurrently; per channel every transport write must be exactly one whole frame, each addressed item appears exactly once, nothing else appears, per (producer, channel) order is submission order, forwarded frames keep their header, frames received from outside (raw and decoded) are kept by the application and forwarded after everything else and must go out as they came in, unencodable items cost no other item its place, originated messages carry the node's ids and the link's own gapless sequence; non-trivial = >=2 producers on >=3 channels with at least one Except and one To; distinct by hash of the programs")
+	rec.Require("2+producers-3+channels-to-except", "closed-target", "foreign-target", "v1", "v2", "signed", "after-overflow-and-recovery", "unencodable-item-between-valid-ones", "received-frames-kept-and-forwarded-later")
 	evid.Check(t, rec, evid.N(300, 800), func(t *rapid.T) {
 		drawNodeInit(t)
 		w := &c11World{}
@@ -160,6 +174,9 @@ func TestC11FanOut(t *testing.T) {
 		}
 		if unencT {
 			cls = append(cls, "unencodable-item-between-valid-ones")
+		}
+		if w.relayedFrames >= 4 {
+			cls = append(cls, "received-frames-kept-and-forwarded-later")
 		}
 		if w.v2 {
 			cls = append(cls, "v2")
@@ -384,7 +401,9 @@ func runC11(w *c11World) error {
 		}
 		return chans[t]
 	}
-	// incoming noise
+	// incoming traffic (kept by the application and forwarded at the end, see below)
+	fed := make([][][]byte, w.nch) // per channel: the frames fed to its transport, in order
+	var fedMu sync.Mutex
 	stopIn := make(chan struct{})
 	var inWG sync.WaitGroup
 	inWG.Add(1)
@@ -396,8 +415,11 @@ func runC11(w *c11World) error {
 				return
 			default:
 			}
-			f := tagged(byte(k%w.nch+1), k, "debug", w.v2, nil, 0)
-			pipes[k%w.nch].Feed(f.Bytes())
+			b := incomingFrame(w, k)
+			fedMu.Lock()
+			fed[k%w.nch] = append(fed[k%w.nch], b)
+			fedMu.Unlock()
+			pipes[k%w.nch].Feed(b)
 			time.Sleep(100 * time.Microsecond)
 		}
 	}()
@@ -504,6 +526,68 @@ func runC11(w *c11World) error {
 			return fmt.Errorf("channel %d: %d of %d addressed items reached the wire within %v (dropped although the backlog never exceeded 24)", c, pipes[c].NumWrites()-preWrites[c], len(want[c]), bound)
 		}
 	}
+	// store-and-forward: the application kept every frame it received and forwards them only now, each to all
+	// channels but the one it came from. What goes out must be what came in, long after the transports that
+	// delivered them have moved on to other data.
+	relayed := make([][][]byte, w.nch)
+	{
+		nfed := 0
+		fedMu.Lock()
+		for _, f := range fed {
+			nfed += len(f)
+		}
+		fedMu.Unlock()
+		frameEvents := func(recs []sim.Rec) []*gomavlib.EventFrame {
+			var out []*gomavlib.EventFrame
+			for _, r := range recs {
+				if ef, ok := r.Ev.(*gomavlib.EventFrame); ok {
+					out = append(out, ef)
+				}
+			}
+			return out
+		}
+		if !rec.WaitFor(bound, func(recs []sim.Rec) bool { return len(frameEvents(recs)) >= nfed }) {
+			return fmt.Errorf("%d frames were fed to the transports but only %d frame events arrived within %v", nfed, len(frameEvents(rec.Snapshot())), bound)
+		}
+		seenOn := make([]int, w.nch)
+		total := make([]int, w.nch)
+		for c := range total {
+			total[c] = preWrites[c] + len(want[c])
+		}
+		for _, ef := range frameEvents(rec.Snapshot()) {
+			src := -1
+			for c, ch := range chans {
+				if ch == ef.Channel {
+					src = c
+				}
+			}
+			if src < 0 || seenOn[src] >= len(fed[src]) {
+				return fmt.Errorf("a frame event that matches nothing fed to the transports (channel %v)", ef.Channel)
+			}
+			orig := fed[src][seenOn[src]]
+			seenOn[src]++
+			if err := n.WriteFrameExcept(ef.Channel, ef.Frame); err != nil {
+				return fmt.Errorf("forwarding a received frame failed: %v", err)
+			}
+			for c := 0; c < w.nch; c++ {
+				if c != src {
+					relayed[c] = append(relayed[c], orig)
+					total[c]++
+				}
+			}
+			for c := 0; c < w.nch; c++ {
+				if !pipes[c].WaitWrites(total[c]-20, bound) {
+					return fmt.Errorf("channel %d: forwarded received frames do not reach the wire (%d of %d writes)", c, pipes[c].NumWrites(), total[c])
+				}
+			}
+		}
+		w.relayedFrames = nfed
+		for c := 0; c < w.nch; c++ {
+			if !pipes[c].WaitWrites(total[c], bound) {
+				return fmt.Errorf("channel %d: %d of %d forwarded received frames reached the wire within %v", c, pipes[c].NumWrites()-preWrites[c]-len(want[c]), len(relayed[c]), bound)
+			}
+		}
+	}
 	time.Sleep(3 * time.Millisecond) // anything extra would show up now
 	if fpipe.NumWrites() != 0 {
 		return fmt.Errorf("a write naming a foreign channel reached the other node's transport")
@@ -514,6 +598,7 @@ func runC11(w *c11World) error {
 		seen := map[item]int{}
 		last := map[int]int{}
 		originated := preWrites[c] // the prologue consisted of originated messages only
+		relayIdx := 0
 		for k, b := range writes {
 			f, nbytes, err := ref.Parse(b)
 			if err != nil || nbytes != len(b) {
@@ -521,6 +606,17 @@ func runC11(w *c11World) error {
 			}
 			if f.V2 != w.v2 && f.Sys == nodeSys {
 				return fmt.Errorf("channel %d write %d: originated message in a version that differs from the configured one", c, k)
+			}
+			if f.Sys > 50 && int(f.Sys) <= 50+w.nch {
+				// a received frame forwarded by the store-and-forward phase
+				if relayIdx >= len(relayed[c]) {
+					return fmt.Errorf("channel %d write %d: a forwarded received frame that was not addressed to this channel: %x", c, k, b)
+				}
+				if string(b) != string(relayed[c][relayIdx]) {
+					return fmt.Errorf("channel %d write %d: a frame received earlier and forwarded later went out as %x, it arrived as %x", c, k, b, relayed[c][relayIdx])
+				}
+				relayIdx++
+				continue
 			}
 			if f.ID != debugMsgID {
 				return fmt.Errorf("channel %d write %d: unexpected message id %d", c, k, f.ID)
@@ -559,8 +655,8 @@ func runC11(w *c11World) error {
 				if string(f.Payload) != string(wantF.Payload) {
 					return fmt.Errorf("channel %d write %d: forwarded %s frame carries payload %x, its version's encoding is %x", c, k, map[bool]string{true: "v2", false: "v1"}[f.V2], f.Payload, wantF.Payload)
 				}
-				if f.Sys != wantF.Sys || f.Comp != wantF.Comp || f.Seq != wantF.Seq {
-					return fmt.Errorf("channel %d write %d: forwarded frame header changed: seq/sys/comp %d/%d/%d, submitted %d/%d/%d", c, k, f.Seq, f.Sys, f.Comp, wantF.Seq, wantF.Sys, wantF.Comp)
+				if f.Sys != wantF.Sys || f.Comp != wantF.Comp || f.Seq != wantF.Seq || f.Compat != wantF.Compat || f.Incompat != wantF.Incompat || f.Checksum != wantF.Checksum {
+					return fmt.Errorf("channel %d write %d: forwarded frame header changed: seq/sys/comp %d/%d/%d flags %#x/%#x checksum %#04x, submitted %d/%d/%d flags %#x/%#x checksum %#04x", c, k, f.Seq, f.Sys, f.Comp, f.Incompat, f.Compat, f.Checksum, wantF.Seq, wantF.Sys, wantF.Comp, wantF.Incompat, wantF.Compat, wantF.Checksum)
 				}
 			}
 			seen[it]++
@@ -572,6 +668,9 @@ func runC11(w *c11World) error {
 			}
 			last[it.p] = it.i
 			_ = pos{}
+		}
+		if relayIdx != len(relayed[c]) {
+			return fmt.Errorf("channel %d: %d of %d forwarded received frames on the wire", c, relayIdx, len(relayed[c]))
 		}
 		wantSet := map[item]bool{}
 		for _, it := range want[c] {
